@@ -6,8 +6,25 @@ use verif_harness::gen;
 use verif_harness::runs::{apis_for, run_api, Guards};
 use verif_harness::util::*;
 
-fn decode_event(g: &mut Guards, id: &str, bytes: &[u8], plan: &[(String, u16, usize)]) -> Value {
+fn decode_event(g: &mut Guards, id: &str, bytes: &[u8], plan: &[(String, u16, usize)], sweep: bool) -> Value {
     let mut runs = vec![];
+    // accessor sweep of all single-layer decoders at every offset the plan names, and at the offsets behind
+    // the headers found there (so that the transport decoders also see transport bytes)
+    let mut offs: Vec<usize> = if sweep { plan.iter().map(|p| p.2).filter(|o| *o <= bytes.len()).collect() } else { vec![] };
+    for o in offs.clone() {
+        for d in [20usize, 40, 48] {
+            if o + d <= bytes.len() {
+                offs.push(o + d);
+            }
+        }
+    }
+    offs.sort();
+    offs.dedup();
+    for o in offs {
+        for api in apis_for("sweep") {
+            runs.push(run_api(g, api, &bytes[o..], 0, o));
+        }
+    }
     for (entry, et, skip) in plan {
         if *skip > bytes.len() {
             continue;
@@ -55,7 +72,7 @@ fn decode_gen(a: &Args) {
             continue;
         }
         marker.set(&id);
-        let ev = decode_event(&mut g, &id, b, &plan);
+        let ev = decode_event(&mut g, &id, b, &plan, a.get("sweep").is_some());
         out.line(&ev);
     }
     out.finish();
@@ -87,7 +104,7 @@ fn decode_in(a: &Args) {
             plan.push((v["entry"].as_str().unwrap().to_string(), v["et"].as_i64().unwrap_or(0).max(0) as u16, 0));
         }
         marker.set(&id);
-        let ev = decode_event(&mut g, &id, &bytes, &plan);
+        let ev = decode_event(&mut g, &id, &bytes, &plan, a.get("sweep").is_some());
         out.line(&ev);
     }
     out.finish();
